@@ -437,4 +437,121 @@ def norm (s : Str) : List Str := (splitSep s).foldl normStep []
 def dataRoot (root : Str) : Str := join root "data".toList
 def metaPath (root name : Str) : Str := join (join root "meta_data".toList) (name ++ ".json".toList)
 
+/-! ## validate() as the ordered sequence of its checks (spec_factory.py 217-237, 392-405)
+
+`VIn` is what one call of validate() observes; the checks run in the order of the list and the first one that
+fails raises.  `filterable` / `hasFilters` are kept apart (`_filterable`, `bool(_filters)`) so that every path
+through the "no filters" guard is a separate input. -/
+
+structure VIn where
+  found : Bool
+  host : Bool
+  filterable : Bool
+  hasFilters : Bool
+  allowed : Bool
+  contained : Bool := true
+  readable : Bool := true
+
+inductive VCheck | found | filters | deny | contained | readable
+  deriving DecidableEq, Repr
+
+def VCheck.fails (i : VIn) : VCheck → Option Err
+  | .found => if !i.found then some .notFound else none
+  | .filters => if i.host && (i.filterable && !i.hasFilters) then some .noFilter else none
+  | .deny => if i.host && !i.allowed then some .blacklisted else none
+  | .contained => if !i.contained then some .outside else none
+  | .readable => if !i.readable then some .noAccess else none
+
+/-- FileProvider.validate: exists, (host) filters, (host) deny list, containment, readable -/
+def fileChecks : List VCheck := [.found, .filters, .deny, .contained, .readable]
+/-- CommandOutputProvider.validate: which, (host) filters, (host) deny list -/
+def cmdChecks : List VCheck := [.found, .filters, .deny]
+
+/-- run the checks in order; the first failing one raises -/
+def runChecks (i : VIn) : List VCheck → Except Err Unit
+  | [] => .ok ()
+  | c :: cs => match c.fails i with
+    | some e => .error e
+    | none => runChecks i cs
+
+/-- the observation FileProvider.validate makes for `arg` -/
+def fileVIn (fs : Fs) (ctx : Ctx) (filterable hasFilters : Bool) (arg : Str) : VIn :=
+  let rel := lstripSep arg
+  let path := join ctx.root rel
+  { found := fs.exists_ path, host := ctx.host, filterable := filterable, hasFilters := hasFilters,
+    allowed := allow ctx.denyFiles ('/' :: rel),
+    contained := accept (fs.realpath ctx.root) (fs.realpath path), readable := fs.readable path }
+
+/-! ## collect.apply_blacklist on a deny list AS THE USER WROTE IT (possibly malformed)
+
+A YAML item is a string or something else (number, None, bool: `.isidentifier()` raises AttributeError under
+files/commands; under components `dr.get_component_by_name` finds nothing and the item is skipped).  The value of
+a section is absent, a list, a bare string (Python iterates its characters) or not iterable (None / number:
+TypeError).  `Except Unit` = the exception that leaves apply_blacklist and collect(). -/
+
+inductive Item | str (s : Str) | other
+  deriving DecidableEq, Repr
+
+inductive Sect | absent | list (xs : List Item) | str (s : Str) | noniter
+  deriving Repr
+
+def Sect.items : Sect → Option (List Item)
+  | .absent => some []
+  | .list xs => some xs
+  | .str s => some (s.map (fun c => Item.str [c]))
+  | .noniter => none
+
+def blPre : Str := "insights.specs.default.DefaultSpecs.".toList
+
+/-- one pass of the files / commands loop body (68-74) -/
+def Deny.reg (isSpec : Str → Bool) (cmd : Bool) (d : Deny) (s : Str) : Deny :=
+  if isSpec s then { d with disabled := d.disabled ++ [blPre ++ s] }
+  else if cmd then { d with commands := d.commands ++ [s] }
+  else { d with files := d.files ++ [s] }
+
+/-- the files / commands loop: a non-string item raises at that point -/
+def blLoop (isSpec : Str → Bool) (cmd : Bool) : List Item → Deny → Except Unit Deny
+  | [], d => .ok d
+  | .other :: _, _ => .error ()
+  | .str s :: xs, d => blLoop isSpec cmd xs (d.reg isSpec cmd s)
+
+/-- the components loop (76-80): unknown names (and non-strings) are logged and skipped -/
+def blComps (isComp : Str → Bool) : List Item → Deny → Deny
+  | [], d => d
+  | .other :: xs, d => blComps isComp xs d
+  | .str s :: xs, d => blComps isComp xs (if isComp s then { d with disabled := d.disabled ++ [s] } else d)
+
+/-- apply_blacklist, sequentially: files, then commands, then components -/
+def applyBlacklistSeq (isSpec isComp : Str → Bool) (files commands components : Sect) : Except Unit Deny :=
+  match files.items with
+  | none => .error ()
+  | some fi =>
+    match blLoop isSpec false fi {} with
+    | .error _ => .error ()
+    | .ok d =>
+      match commands.items with
+      | none => .error ()
+      | some ci =>
+        match blLoop isSpec true ci d with
+        | .error _ => .error ()
+        | .ok d =>
+          match components.items with
+          | none => .error ()
+          | some co => .ok (blComps isComp co d)
+
+/-- collect(): apply_blacklist precedes the creation of the broker and `dr.run_all`; an exception leaves collect()
+before any datasource is evaluated.  `run d` = the events of evaluating the enabled datasources under deny state `d`. -/
+def collectRun {ε : Type} (isSpec isComp : Str → Bool) (files commands components : Sect) (run : Deny → List ε) : List ε :=
+  match applyBlacklistSeq isSpec isComp files commands components with
+  | .error _ => []
+  | .ok d => run d
+
+/-- the entry `s` of the files (`cmd = false`) / commands section is in force in `d` -/
+def Deny.has (cmd : Bool) (d : Deny) (s : Str) : Prop :=
+  s ∈ (if cmd then d.commands else d.files) ∨ blPre ++ s ∈ d.disabled
+
+/-- `d'` keeps everything `d` has -/
+def Deny.le (d d' : Deny) : Prop :=
+  (∀ x ∈ d.files, x ∈ d'.files) ∧ (∀ x ∈ d.commands, x ∈ d'.commands) ∧ (∀ x ∈ d.disabled, x ∈ d'.disabled)
+
 end IV.Paths
